@@ -58,10 +58,10 @@ class C12(core.Check):
         'expect:ACCEPT', 'expect:REJECT', 'muted-statement', 'second-step-of-a-macro', 'value-as-expression',
         'kind:valid_address/indirect_numeric', 'kind:valid_address/deferred_numeric', 'output:none', 'output:none+listing',
         'kind:sliced-address/zone-ends-inside-the-page', 'numeric-keys-in:json', 'numeric-keys-in:yaml',
-        'kind:relative_address/one-bound-only']}
+        'kind:relative_address/one-bound-only', 'kind:index-code-of-an-indexed-register']}
 
     def one(self, conf, text, op, addr, tags, addr_bits=16, endian='big', zones=None, gz=None, origin=None, opcode_bits=8,
-            fmt='json'):
+            fmt='json', prelude=''):
         isa = mk_isa(conf, addr_bits, endian, zones, gz, origin, opcode_bits)
         zt = {k: tuple(v) for k, v in layout.zone_table(addr_bits, (isa.get('predefined') or {}).get('memory_zones')).items()}
         stmt = {'mn': 'tst', 'variant': 0, 'spec': None, 'ops': [op]}
@@ -87,12 +87,12 @@ class C12(core.Check):
             fmt = 'yaml' if self._nk % 2 else 'json'
             tags = list(tags) + ['numeric-keys-in:' + fmt]
         fn, itext = isamod.render_isa(isa, fmt)
-        src = f'.org {addr}\ntst {text}\n.byte $EE\n'
+        src = f'{prelude}.org {addr}\ntst {text}\n.byte $EE\n'
         end = addr + 40
         return {'runs': [{'files': {fn: itext, 'p.asm': src},
                           'argv': ['compile', '-c', fn, 'p.asm', '-o', 'out.bin', '-s', str(addr), '-e', str(min(end, (1 << addr_bits) - 1))],
                           'probes': ['steps'], 'step_limit': 300000}],
-                'meta': {'exp': exp, 'text': text, 'addr': addr, 'conf': conf, 'macro_exp': macro_exp}, 'tags': sorted(set(tags) | {'expect:' + exp['kind']})}
+                'meta': {'exp': exp, 'text': text, 'addr': addr, 'conf': conf, 'macro_exp': macro_exp, 'prelude': prelude}, 'tags': sorted(set(tags) | {'expect:' + exp['kind']})}
 
     def width_cases(self, widths):
         for w in widths:
@@ -146,6 +146,20 @@ class C12(core.Check):
                         t = ('{%d}' % tgt) if curly else str(tgt)
                         yield self.one(conf, t, {'id': 'o', 'val': tgt}, addr,
                                        ['kind:relative_address', 'pos:' + pos, 'rel:from-' + ('end' if from_end else 'start')])
+        # the index of an (indirect) indexed register given by a numeric_bytecode: min / max and the width of the index code
+        # field both hold there as they do for a top-level operand (the register's code next to it is not to be overwritten)
+        for typ, fmt_ in (('indexed_register', 'sp+{}'), ('indirect_indexed_register', '[sp+{}]')):
+            for (lo, hi, size) in [(-8, 8, 3), (0, 7, 3), (-4, 3, 3), (-2, 1, 4), (0, 20, 4), (-1, 0, 1)]:
+                conf = {'type': typ, 'register': 'sp', 'bytecode': {'value': 5, 'size': 3},
+                        'index_operands': {'nb': {'type': 'numeric_bytecode', 'bytecode': {'size': size, 'min': lo, 'max': hi}}}}
+                umax, smin = (1 << size) - 1, -(1 << (size - 1))
+                for v, pos in [(lo - 1, 'min-1'), (lo, 'min'), (hi, 'max'), (hi + 1, 'max+1'), (umax, 'umax'), (umax + 1, 'umax+1'),
+                               (smin, 'smin'), (smin - 1, 'smin-1'), (-1, 'negative'), (0, 'zero')]:
+                    # (the index is written as one word: a literal, or a constant for a negative value)
+                    t_ = fmt_.format(v if v >= 0 else 'C12_NEG')
+                    yield self.one(conf, t_, {'id': 'o', 'index': {'id': 'nb', 'val': v}}, 0,
+                                   ['kind:numeric_bytecode', 'kind:index-code-of-an-indexed-register', 'pos:' + pos],
+                                   prelude='' if v >= 0 else f'C12_NEG = 0 - {-v}\n')
         # relative_address with one bound only: that bound holds, the other side is limited by the field width alone
         for (bound, val, size) in [('max', 100, 8), ('max', 0, 8), ('max', -3, 8), ('min', -10, 8), ('min', 0, 8), ('min', 5, 8), ('max', 7, 4),
                                    ('min', -2, 4)]:
@@ -247,7 +261,7 @@ class C12(core.Check):
                 t = copy.deepcopy(c)
                 r = t['runs'][0]
                 m = t['meta']
-                r['files']['p.asm'] = f".org {m['addr']}\nmtst {m['text']}\n.byte $EE\n"
+                r['files']['p.asm'] = f"{m.get('prelude', '')}.org {m['addr']}\nmtst {m['text']}\n.byte $EE\n"
                 m['exp'] = m['macro_exp']
                 m['macro'] = True
                 t['tags'] = sorted((set(t['tags']) - {'expect:ACCEPT', 'expect:REJECT', 'expect:DONT_CARE'}) |
@@ -266,7 +280,7 @@ class C12(core.Check):
                 t = copy.deepcopy(c)
                 r = t['runs'][0]
                 m = t['meta']
-                r['files']['p.asm'] = f".org {m['addr']}\n#mute\ntst {m['text']}\n#unmute\n.byte $EE\n"
+                r['files']['p.asm'] = f"{m.get('prelude', '')}.org {m['addr']}\n#mute\ntst {m['text']}\n#unmute\n.byte $EE\n"
                 m['muted'] = True
                 t['tags'] = sorted(set(t['tags']) | {'muted-statement'})
                 yield t
